@@ -245,10 +245,24 @@ def r5(db, rep):
     for i, (n, a, what) in enumerate(sinks):
         key = "IP::IP:payload-size#%d" % (i + 1)
         a0 = facts.strip_all(a)
+        anchor = n
+        # a local that is a plain copy of the clamped size, never reassigned
+        for _ in range(3):
+            if a0["k"] == "DeclRefExpr" and a0.get("var") != tot:
+                d = [x for x in facts.fn_nodes(f) if x["k"] == "VarDecl" and x.get("var") == a0.get("var") and x.get("c")]
+                wr = [x for x in facts.fn_nodes(f) if x["k"] in ("BinaryOperator", "CompoundAssignOperator", "UnaryOperator")
+                      and x.get("op") in ("=", "+=", "-=", "++", "--") and strip(x["c"][0]).get("var") == a0.get("var")]
+                if len(d) == 1 and not wr:
+                    anchor = d[0]
+                    a0 = facts.strip_all(d[0]["c"][0])
+                    continue
+            break
+        n_ = n
+        n = anchor
         if a0["k"] == "DeclRefExpr" and a0.get("var") == tot and g.reached_from_entry_avoiding(g.pos(n), [g.pos(c) for c in clamp]) is None:
-            rep.ok("R5-fragment-length", key, facts.loc(f, n), "%s built from the size clamped to the header's total length" % what)
+            rep.ok("R5-fragment-length", key, facts.loc(f, n_), "%s built from the size clamped to the header's total length" % what)
         else:
-            rep.violation("R5-fragment-length", key, facts.loc(f, n),
+            rep.violation("R5-fragment-length", key, facts.loc(f, n_),
                           "%s is given `%s`, not the size clamped to the IP total length: trailing link-layer padding becomes part of the "
                           "fragment and of the reassembled datagram" % (what, facts.expr_str(a)[:50]))
 
